@@ -79,6 +79,7 @@ pub fn decode_program(data: &[u8]) -> Option<(Program, u8)> {
             13 => Op::Rebuild,
             14 => Op::AdfNodeList,
             15 => Op::AdfSerde,
+            _ if a & 1 == 1 => Op::RebuildStream,
             _ => Op::FixImport,
         });
     }
@@ -95,7 +96,7 @@ pub fn fz_bddops(data: &[u8]) -> Result<(), String> {
     ok(props::bdd::run_program(&prog, props::bdd::Focus::Function, &mut st))?;
     ok(props::counts::c13_ops_entry(&prog, goal, &mut st))?;
     {
-        let plain: Vec<Op> = prog.ops.iter().filter(|o| !matches!(o, Op::Serde | Op::Rebuild | Op::AdfNodeList | Op::AdfSerde | Op::FixImport | Op::SerdeNoFix)).cloned().collect();
+        let plain: Vec<Op> = prog.ops.iter().filter(|o| !matches!(o, Op::Serde | Op::Rebuild | Op::AdfNodeList | Op::AdfSerde | Op::FixImport | Op::SerdeNoFix | Op::RebuildStream | Op::SerdePartialCache(_))).cloned().collect();
         if !plain.is_empty() {
             let sched = data
                 .iter()
